@@ -15,7 +15,7 @@ from c10 import (DEFAULT_CERT, FAIL_BUILD, FAIL_LEX, Unmodelled, canon, case_ter
 from lib import Check, coq_list, coq_str, known_for, parse_nat_list, run_coq_files
 
 PROP = "C11"
-COQ_HEADER = ("From Coq Require Import String List.\nFrom JMCV Require Import Model.FS Model.Build Run.C10 Run.C11.\n"
+COQ_HEADER = ("From Coq Require Import String List.\nFrom JMCV Require Import Model.FS Model.Build Model.BuildPath Run.C10 Run.C11.\n"
               "Import ListNotations.\nOpen Scope string_scope.\n")
 
 PROPOSED_KNOWN = {
@@ -45,8 +45,7 @@ def stale_tick_only(job: dict, b_rec: dict, oracle: list) -> bool:
     folder, and only by entries of this pack"""
     ns = job.get("ns", "ns")
     f = b_rec["facts"]
-    root = f["root"]
-    statics = [s[len(root) + 1:] for s in f.get("statics", []) if s.startswith(root + "/")]
+    statics = c10.spelled_statics(f, ns)          # from the header as written, not from the code under test
     roots = [f"data/{ns}", "data/minecraft"] + [f"data/{o}" for o in f.get("overrides", [])]
     got = {p: t for p, t in b_rec["after"] if t is not None}
     want = {p: t for p, t in oracle if t is not None}
@@ -147,6 +146,14 @@ def gen_history(rng) -> dict:
         copy_src = [["top.txt", "T"], ["extra/x.txt", "X"]]
         if rng.random() < 0.4:
             copy_src.append(["data/zz/function/c.mcfunction", "say c"])
+        # (round 4) the copied folder ships function tags with foreign entries (a library's load / tick function) and files at
+        # the paths of generated ones
+        if rng.random() < 0.6:
+            copy_src.append(["data/minecraft/tags/function/load.json", canon(["lib:init"] + (["ns:stale"] if rng.random() < 0.5 else []))])
+        if rng.random() < 0.35:
+            copy_src.append(["data/minecraft/tags/function/tick.json", canon(["lib:tick", "ns:__tick__"])])
+        if rng.random() < 0.3:
+            copy_src += [["data/ns/function/f.mcfunction", "say copied f"], ["data/minecraft/loot_table/c.json", "{}"]]
     n_prefix = rng.choice([0, 1, 1, 2, 2, 3])
     builds = []
     statics: list[str] = []
@@ -181,9 +188,85 @@ def gen_history(rng) -> dict:
     for b in builds + [last]:
         if rng.random() < 0.3:
             b["pack_format"] = rng.choice(["26", "48", "61"])
-    return dict(ns="ns", pack_format=rng.choice(["48", "48", "26"]), desc="d", out_exists=rng.random() < 0.8, init=init,
-                copy_src=copy_src, out_dotdot=rng.random() < 0.2, builds=builds, last=last, statics=statics,
-                static_touch=static_touch if statics else [])
+    h = dict(ns="ns", pack_format=rng.choice(["48", "48", "26"]), desc="d", out_exists=rng.random() < 0.8, init=init,
+             copy_src=copy_src, out_dotdot=rng.random() < 0.2, builds=builds, last=last, statics=statics,
+             static_touch=static_touch if statics else [])
+    if rng.random() < 0.35:         # (round 4) the way JMC is given its paths
+        env = rng.choice(c10.PATH_ENVS)
+        if h["out_exists"] or not env.get("needs_out"):
+            h["out_dotdot"], h["paths"] = False, c10.path_env(env)
+            respell(rng, h, env)
+    return h
+
+
+def respell(rng, h: dict, env: dict | None) -> None:
+    """(round 4) every build of the history spells its `#static` arguments its own way"""
+    for b in h["builds"] + [h["last"]]:
+        if b.get("header"):
+            b["header"] = re.sub(r'#static "([^"\n]*)"', lambda m: '#static "%s"' % c10.spell(rng, m.group(1), env, 0.3), b["header"])
+
+
+LIB_TAGS = [["data/minecraft/tags/function/load.json", canon(["lib:init", "ns:stale_in_copy"])],
+            ["data/minecraft/tags/function/tick.json", canon(["lib:tick"])],
+            ["data/lib/function/init.mcfunction", "say lib init"]]
+
+
+def copy_histories(rng, tier: str) -> list[dict]:
+    """(round 4) `#copy` folders that carry function tags with foreign entries (`lib:init`) and files that collide with
+    generated ones, across build - rebuild - rebuild sequences, with the directive added / removed between builds and combined
+    with #static / #override.  `fresh_all`: EVERY successful build of the sequence is compared with the same project built
+    into the initial tree (first build = rebuild = fresh build)."""
+    base = dict(ns="ns", pack_format="48", desc="d", out_exists=True, init=[], statics=[], light=True, fresh_all=True)
+    A = "\n".join([TICK, fn("f"), 'new advancement(x.y) {"a":1}'])
+    B = fn("g")
+    C = "#copy \"cp\""
+    collide = [["data/ns/function/f.mcfunction", "say copied f"], ["data/ns/advancement/x/y.json", '{"copied": true}'],
+               ["pack.mcmeta", '{"pack":{"pack_format":1,"description":"copied"}}'], ["data/minecraft/loot_table/x.json", "{}"],
+               ["data/minecraft/tags/function/load.json", canon(["lib:init"])], ["top.txt", "T"]]
+    hs = [
+        # the rebuild window itself, every crash point: first build and rebuild ship lib:init / lib:tick, the tick function goes
+        dict(base, light=False, copy_src=LIB_TAGS, builds=[dict(src=A, header=C)], last=dict(src=B, header=C)),
+        # build - rebuild - rebuild - rebuild, sources alternate
+        dict(base, copy_src=LIB_TAGS, builds=[dict(src=A, header=C), dict(src=A, header=C), dict(src=B, header=C)], last=dict(src=A, header=C)),
+        # the directive is added after two builds ... and removed again: load.json then holds the own entry only
+        dict(base, copy_src=LIB_TAGS, builds=[dict(src=A, header=None), dict(src=B, header=None), dict(src=B, header=C), dict(src=A, header=C)],
+             last=dict(src=A, header=None)),
+        dict(base, copy_src=LIB_TAGS, init=[["readme.txt", "hi"], ["data/other/function/a.mcfunction", "say a"]],
+             builds=[dict(src=A, header=C), dict(src=B, header=None), dict(src=B, header=C)], last=dict(src=B, header=C + "\n#nometa")),
+        # with an override namespace; a failing compile and a failed deletion in between
+        dict(base, copy_src=LIB_TAGS + [["data/foo/function/libfoo.mcfunction", "say libfoo"]],
+             builds=[dict(src=A + "\n" + fn("foo.h"), header="#override foo\n" + C), dict(src=A + "\n" + FAIL_LEX[0], header="#override foo\n" + C),
+                     dict(src=B + "\n" + fn("foo.h"), header=C + "\n#override foo", oserror_path="data/ns/function")],
+             last=dict(src=B + "\n" + fn("foo.i"), header="#override foo\n" + C)),
+        # files of the copied folder at the paths of generated ones (f.mcfunction, x/y.json, pack.mcmeta) and inside data/minecraft
+        dict(base, copy_src=collide, builds=[dict(src=A, header=C), dict(src=B, header=C), dict(src=A, header=C + "\n#nometa")],
+             last=dict(src=B, header=C)),
+        # pack format 26: the tags live in tags/functions, the copied tags/function/load.json is an ordinary file there
+        dict(base, pack_format="26", copy_src=LIB_TAGS + [["data/minecraft/tags/functions/load.json", canon(["lib26:init"])]],
+             builds=[dict(src=A, header=C), dict(src=B, header=C, pack_format="48")], last=dict(src=B, header=C)),
+    ]
+    # combined with #static: the copied tag wins over a shielded one; without #copy the shielded one keeps its foreign entries
+    st = ["../minecraft/tags"]
+    shield = [["data/minecraft/tags/function/load.json", canon(["hand:init", "ns:__load__"])], ["data/minecraft/tags/hand.txt", "h"]]
+    hs.append(dict(base, fresh_all=False, copy_src=LIB_TAGS, statics=st,
+                   static_touch=[list(x) for x in shield] + [["data/minecraft/tags/function/tick.json", canon(["lib:tick"])]],
+                   builds=[dict(src=A, header=C), dict(src=A, header=C + '\n#static "../minecraft/tags"', touch=[shield[1]]),
+                           dict(src=B, header='#static "../minecraft/tags"', touch=[shield[0]])],
+                   last=dict(src=B, header='#static "../minecraft/tags"')))
+    hs.append(dict(base, fresh_all=False, copy_src=LIB_TAGS, statics=st,
+                   static_touch=[list(x) for x in shield] + [["data/minecraft/tags/function/tick.json", canon([])]],
+                   builds=[dict(src=A, header=None), dict(src=B, header='#static "../minecraft/tags"', touch=shield)],
+                   last=dict(src=B, header=C + '\n#static "../minecraft/tags"')))
+    if tier != "quick":
+        hs += [dict(h, light=False) for h in hs[1:4]]
+    # path spellings: the same sequences with the output directory / #static arguments given another way
+    for h in hs:
+        if rng.random() < 0.5:
+            env = rng.choice(c10.PATH_ENVS)
+            h["paths"] = c10.path_env(env)
+            respell(rng, h, env)
+    return hs
+
 
 
 # ---- strengthening round 1: #static folders whose NAME is string-related to a JMC-generated sibling that later disappears.
@@ -404,8 +487,7 @@ def shielded_tag_kill(job: dict, b_crash: dict) -> bool:
     ev = b_crash["trace"][-1] if b_crash["trace"] else None
     if not ev or ev[0] not in ("create", "write") or not re.fullmatch(r"data/minecraft/tags/functions?/(load|tick)\.json", ev[1]):
         return False
-    root = b_crash["facts"]["root"]
-    return any((root + "/" + ev[1]).startswith(st + "/") for st in b_crash["facts"].get("statics", []))
+    return any(st == "." or ev[1].startswith(st + "/") for st in c10.spelled_statics(b_crash["facts"], job.get("ns", "ns")))
 
 
 def rcase_term(job, b_rec: dict, pre_snap, mid_snap, oracle_snap, prev: list[str] | None = None) -> str:
@@ -417,8 +499,7 @@ def rcase_term(job, b_rec: dict, pre_snap, mid_snap, oracle_snap, prev: list[str
     nm = dict(names)
     cert_text = "\n".join(f"{k}={v}" for k, v in names)
     cfg = f"(mkCfg {coq_str(ns)} {coq_str(ff)} {coq_str(cert_text)} {coq_str(nm['LOAD'])} {coq_str(nm['TICK'])})"
-    statics = [coq_list(coq_str(c) for c in c10.abs_to_model(s, f["root"])) for s in f.get("statics", [])]
-    hdr = f"(mkHdr {coq_list(statics)} {coq_list(coq_str(o) for o in f.get('overrides', []))} None false)"
+    hdr = c10.hdr_term(dict(f, nometa=False), cfg, f.get("overrides", []), "None", ns)
     refused = real_result(b_rec) == "RRefused" or refused_for_tag(b_rec)
     trace = coq_list(op_term(ev, ff) for ev in b_rec["trace"])
     if not c10.detect_variant().get("ns_checked") and not all(c10.plain_name(o) for o in f.get("overrides", [])):
@@ -432,8 +513,8 @@ def eval_rcodes(terms: list[str], per_file: int = 25, prefix: str = "rcases"):
     files = []
     for fi, start in enumerate(range(0, len(terms), per_file)):
         chunk = terms[start:start + per_file]
-        files.append((f"{prefix}_{fi}.v", COQ_HEADER + "Definition rs : list rcase := [\n" + ";\n".join(chunk) +
-                      "\n].\nEval vm_compute in rcodes rs.\n"))
+        files.append((f"{prefix}_{fi}.v", COQ_HEADER + c10.SHARE.with_defs("Definition rs : list rcase := [\n" + ";\n".join(chunk) +
+                                                                           "\n].\nEval vm_compute in rcodes rs.\n")))
     outs = run_coq_files(PROP, files, timeout=600, clean=False)
     codes, errs = [], []
     for fi, (ok, out) in enumerate(outs):
@@ -487,7 +568,7 @@ def retry_override_orders(tmeta: list, codes: list, errs: list, prefix: str = "c
 
 
 def job_of(h: dict, tail: list[dict]) -> dict:
-    j = {k: v for k, v in h.items() if k not in ("builds", "last", "statics", "static_touch", "family", "light", "quick_light")}
+    j = {k: v for k, v in h.items() if k not in ("builds", "last", "statics", "static_touch", "family", "light", "quick_light", "fresh_all")}
     j["builds"] = copy.deepcopy(h["builds"]) + tail
     return j
 
@@ -510,7 +591,7 @@ def main(tier: str) -> int:
     ]
     ck.proof(extra_targets=["Run/C10.vo", "Run/C11.vo"])
     n_rand = 6 if tier == "quick" else 36
-    hs = fixed_histories() + [gen_history(ck.rng) for _ in range(n_rand)] + family_histories(ck.rng, tier)
+    hs = fixed_histories() + [gen_history(ck.rng) for _ in range(n_rand)] + family_histories(ck.rng, tier) + copy_histories(ck.rng, tier)
     for h in hs:
         if h.pop("quick_light", False) and tier == "quick":
             h["light"] = True          # quick tier: the un-interrupted run, twice and the fresh comparison only
@@ -523,9 +604,18 @@ def main(tier: str) -> int:
     # tree holding nothing but jmc.txt and the same static content (the statics must exist for the header to be accepted)
     fresh_jobs = [dict(ns=h["ns"], pack_format=h["pack_format"], desc=h["desc"], out_exists=True,
                        init=h["init"] + ([[f"data/{h['ns']}/jmc.txt", cert0]] + h.get("static_touch", []) if h["statics"] else []),
-                       copy_src=h["copy_src"], out_dotdot=bool(h.get("out_dotdot")), builds=[dict(h["last"])]) for h in hs]
+                       copy_src=h["copy_src"], out_dotdot=bool(h.get("out_dotdot")), paths=h.get("paths"), builds=[dict(h["last"])]) for h in hs]
+    # (round 4) `fresh_all` histories: EVERY build of the sequence against the same project built into the initial tree
+    every_jobs, every_meta = [], []
+    for hi, h in enumerate(hs):
+        if h.get("fresh_all") and not h["statics"]:
+            for bi, b in enumerate(h["builds"]):
+                spec = {k: v for k, v in b.items() if k not in ("touch", "remove", "oserror_path", "crash_at", "torn")}
+                every_jobs.append(dict(fresh_jobs[hi], builds=[spec]))
+                every_meta.append((hi, bi))
     base_res = run_jobs(base_jobs)
     fresh_res = run_jobs(fresh_jobs)
+    every_res = run_jobs(every_jobs)
 
     # phase 2: one job per crash point of the last build (+ a few injected deletion failures), then the recovery compile
     crash_jobs, meta = [], []
@@ -599,6 +689,16 @@ def main(tier: str) -> int:
                   ("fresh-vs-statics-only" if h["statics"] else "fresh-vs-empty", hi), prev=prev_overrides(r["builds"], nb))
         # C11_twice
         add_r(base_jobs[hi], second, first["after"], first["after"], first["after"], ("twice", hi), prev=prev_overrides(r["builds"], nb + 1))
+    fresh_job_of: dict = {}
+    for (hi, bi), fj, fr in zip(every_meta, every_jobs, every_res):
+        r = base_res[hi]
+        if "runner_error" in r or "runner_error" in fr:
+            continue
+        b, fb = r["builds"][bi], fr["builds"][0]
+        add_case(fj, 0, fb, ("fresh-every", hi, bi))
+        if real_result(b) == "RDone" and real_result(fb) == "RDone":
+            fresh_job_of[(hi, bi)] = fj
+            add_r(base_jobs[hi], b, b["before"], b["before"], fb["after"], ("fresh-vs-empty", hi, bi), prev=prev_overrides(r["builds"], bi))
     for (hi, kind, k), job, r in zip(meta, crash_jobs, crash_res):
         if "runner_error" in r:
             ck.violation(dict(kind="runner-error", history=job, log=r["runner_error"]), no_input=True)
@@ -622,6 +722,8 @@ def main(tier: str) -> int:
 
     reported = set()
     torn_keys = set()
+    order = sorted(range(len(codes)), key=lambda i: 0 if (codes[i] or 0) & 248 else 1)     # property violations first
+    tmeta, codes = [tmeta[i] for i in order], [codes[i] for i in order]
     for (tag, job, b_rec), rc in zip(rmeta, rcodes):
         if tag[0] == "recover" and is_torn_cert(job, tag[4]):
             torn_keys.add((tag[1], tag[2], tag[3]))
@@ -634,10 +736,10 @@ def main(tier: str) -> int:
             continue
         reported.add(code)
         rec = dict(job=job, bi=bi, build=b, code=code, prop=PROP)
-        obj = c10.replay_obj(rec, f"{tag[0]}: real run differs from Model/Build.v" if not code & 120 else
+        obj = c10.replay_obj(rec, f"{tag[0]}: real run differs from Model/Build.v" if not code & 248 else
                              f"{tag[0]}: property violated on a real run")
         obj["tag"] = [str(x) for x in tag[:4]]
-        ck.violation(obj, no_input=not (code & 120))
+        ck.violation(obj, no_input=not (code & 248))
     n_r_bad, n_recover, n_refused = 0, 0, 0
     n_dropped = 0
     for ((tag, job, b_rec), rc), oracle in zip(zip(rmeta, rcodes), oracles):
@@ -677,7 +779,8 @@ def main(tier: str) -> int:
         bits = [RBITS[k] for k in RBITS if rc and rc & k] + ([f"the re-run ended with {b_rec['exc']}"] if unexpected else [])
         ck.violation(dict(kind=f"{tag[0]}: " + "; ".join(bits), history=job, check=tag[0],
                           crash_point=crash_point_desc(tag[4]) if tag[0] == "recover" else None,
-                          fresh_job=fresh_jobs[tag[1]] if tag[0].startswith("fresh-vs") else None,
+                          fresh_job=(fresh_job_of.get((tag[1], tag[2])) if len(tag) > 2 else fresh_jobs[tag[1]]) if tag[0].startswith("fresh-vs") else None,
+                          build_index=tag[2] if tag[0].startswith("fresh-vs") and len(tag) > 2 else None,
                           rerun=dict(result=res, exc=b_rec["exc"], changed=c10.describe_change(b_rec)),
                           expected="the re-run yields, inside data/<ns>, data/<override>, data/minecraft and at every path it writes, "
                                    "the files of the un-interrupted build, or is refused without modifying anything; #static unchanged",
@@ -731,6 +834,8 @@ def replay(path: str) -> int:
     if obj.get("fresh_job"):
         # C11_fresh: the last build of the history vs the same project built into a tree that holds only jmc.txt + the statics
         nb = len(job["builds"]) - 2          # the un-interrupted history ends with the last project built twice
+        if obj.get("build_index") is not None:
+            nb = obj["build_index"]          # (round 4) an earlier build of the sequence against its own fresh build
         first = r["builds"][nb]
         fr = run_jobs([obj["fresh_job"]])[0]["builds"][0]
         print("actual: last build:", real_result(first), "| fresh build:", real_result(fr), fr["exc"])
